@@ -1,6 +1,7 @@
 import EinxModel.Props.C08
 import EinxModel.Proofs.DenoteDefined
 import EinxModel.Proofs.DenoteReducePerm
+import EinxModel.Proofs.DenoteDot
 /-!
 C08 (continued) — gaps of `Props/C08.lean` closed by work package c08.
 
@@ -12,6 +13,8 @@ C08 (continued) — gaps of `Props/C08.lean` closed by work package c08.
       `denote_reduce_permute_input` (+ `_sem`: every interpretation with permutation-invariant reductions), output
       permutation incl. definedness `denote_reduce_permute_output`, parentheses `denote_reduce_regroup_input/_output`;
       `denoteId_regroup_input/_output` (the regrouping laws of `C08` on expressions, loop form)
+* (d) dot (executable loop form `Denote.denoteDot`): tie `denoteDot_fun_agree`; output permutation incl. definedness
+      `denote_dot_permute_output`; parentheses on the output `denote_dot_regroup_output`
 -/
 namespace Einx.C08b
 open Einx Einx.IR Einx.Denote Einx.C08
@@ -419,5 +422,88 @@ example :
       | some [t1], some [t2] => Tensor.beq t1 t2 && t1.data.length == 8 && !Tensor.beq t1 (symInput 0 [1, 4, 2])
       | _, _ => false) = true := by
   decide +kernel
+
+/-! ### (d) Dot: tie, output permutation, output parentheses -/
+
+/-- **Tie to `Denote/Expr2.lean`, dot.**  For concatenation-free expressions the executable loop form
+`Denote.denoteDot` (three nested `for` loops in `Except`) and the functional form `Denote.denoteDotFun` succeed on the
+same operations with the same symbolic tensor. -/
+theorem denoteDot_fun_agree (exprsIn : List Expr) (eo : Expr) (hin : Expr.concatFreeL exprsIn = true)
+    (heo : eo.concatFree = true) : okOpt (denoteDot exprsIn eo) = okOpt (denoteDotFun exprsIn eo) :=
+  denoteDot_eq_fun exprsIn eo hin heo
+
+theorem okOpt_denoteDot (exprsIn : List Expr) (eo : Expr) (hin : Expr.concatFreeL exprsIn = true)
+    (heo : eo.concatFree = true) :
+    okOpt (denoteDot exprsIn eo)
+      = (dotCells (exprsIn.map (fun e => (rootDims e, shapeOf e))) (rootDims eo) (shapeOf eo)).map
+          (fun cs => (⟨shapeOf eo, cs⟩ : Tensor Cell)) := by
+  rw [denoteDot_fun_agree exprsIn eo hin heo]
+  unfold denoteDotFun
+  simp only [hin, heo, Bool.and_self, Bool.not_true, Bool.false_eq_true, if_false]
+  cases dotCells (exprsIn.map (fun e => (rootDims e, shapeOf e))) (rootDims eo) (shapeOf eo) <;> rfl
+
+/-- **Reordering the axes of the output expression of a dot permutes the result's dimensions accordingly**, including
+definedness (any number of inputs, any contracted axes). -/
+theorem denote_dot_permute_output (exprsIn : List Expr) (eo eo' : Expr) (perm : List Nat) (T : Tensor Cell)
+    (hin : Expr.concatFreeL exprsIn = true) (heo : eo.concatFree = true) (heo' : eo'.concatFree = true)
+    (hperm : isPermOf perm (rootDims eo).length = true) (hp : permuteL perm (rootDims eo) = some (rootDims eo'))
+    (hcons : consistentB (Dim.leavesL (rootDims eo)) = true)
+    (h : okOpt (denoteDot exprsIn eo) = some T) :
+    ∃ T', okOpt (denoteDot exprsIn eo') = some T' ∧
+      ∃ plan, planInstr [shapeOf eo] (.transpose 0 perm) = .ok plan ∧ runPlan symAlg [T] plan = T' := by
+  rw [okOpt_denoteDot exprsIn eo hin heo] at h
+  rw [okOpt_denoteDot exprsIn eo' hin heo']
+  cases hcs : dotCells (exprsIn.map (fun e => (rootDims e, shapeOf e))) (rootDims eo) (shapeOf eo) with
+  | none => simp [hcs] at h
+  | some cs =>
+    simp only [hcs, Option.map_some, Option.some.injEq] at h
+    subst h
+    obtain ⟨cs', h', plan, hplan, hrun⟩ := genCells_permute_output_full (dotX_getInvariant _)
+      hperm hp (rootDims_concatFree heo) (consistentB_spec hcons) hcs
+    have h'' : dotCells (exprsIn.map (fun e => (rootDims e, shapeOf e))) (rootDims eo') (shapeOf eo') = some cs' := h'
+    exact ⟨⟨shapeOf eo', cs'⟩, by rw [h'']; rfl, plan, hplan, hrun⟩
+
+/-- **Parentheses on the output expression of a dot** reshape the result: same cells, same row-major order. -/
+theorem denote_dot_regroup_output (exprsIn : List Expr) (pre mid post : List Expr)
+    (hin : Expr.concatFreeL exprsIn = true)
+    (h1 : (grouped pre mid post).concatFree = true) (h2 : (ungrouped pre mid post).concatFree = true) :
+    (okOpt (denoteDot exprsIn (grouped pre mid post))).map (·.data)
+      = (okOpt (denoteDot exprsIn (ungrouped pre mid post))).map (·.data) := by
+  rw [okOpt_denoteDot exprsIn _ hin h1, okOpt_denoteDot exprsIn _ hin h2]
+  unfold dotCells
+  rw [shapeOf_eq (grouped pre mid post), shapeOf_eq (ungrouped pre mid post), rootDims_grouped, rootDims_ungrouped,
+    genCells_regroup_output]
+  simp only [Option.map_map, Function.comp_def]
+
+/-- Non-vacuity: `dot: a [b], [b] c d -> c a d` with a = b = c = 2, d = 1 (a contracted axis, equal lengths, a
+length-1 axis); the output permuted by `[2, 0, 1]` to `d c a` and grouped to `(c a) d`.  Both forms agree, the results
+are genuine sums of two products, and the laws apply. -/
+example :
+    let a := Expr.axis "a" 2; let b := Expr.axis "b" 2; let c := Expr.axis "c" 2; let d := Expr.axis "d" 1
+    let ins := [Expr.list [a, .br b], Expr.list [.br b, c, d]]
+    let eo := Expr.list [c, a, d]; let eo' := Expr.list [d, c, a]
+    Expr.concatFreeL ins = true ∧ eo.concatFree = true ∧ eo'.concatFree = true ∧
+    isPermOf [2, 0, 1] (rootDims eo).length = true ∧
+    (permuteL [2, 0, 1] (rootDims eo)).map viewShape = some (viewShape (rootDims eo')) ∧
+    consistentB (Dim.leavesL (rootDims eo)) = true ∧
+    (match okOpt (denoteDot ins eo), okOpt (denoteDotFun ins eo), okOpt (denoteDot ins eo'),
+        okOpt (denoteDot ins (grouped [] [c, a] [d])), okOpt (denoteDot ins (ungrouped [] [c, a] [d])) with
+      | some t, some u, some t', some g, some ug =>
+        Tensor.beq t u && t.shape == [2, 2, 1] && t'.shape == [1, 2, 2] && g.shape == [4, 1] && Cell.beqL g.data ug.data &&
+          Cell.beqL (t.data.take 2)
+            [.app "red:sum" [.app "multiply" [.src 0 0, .src 1 0], .app "multiply" [.src 0 1, .src 1 2]],
+             .app "red:sum" [.app "multiply" [.src 0 2, .src 1 0], .app "multiply" [.src 0 3, .src 1 2]]]
+      | _, _, _, _, _ => false) = true := by
+  decide +kernel
+
+example :
+    let a := Expr.axis "a" 2; let b := Expr.axis "b" 2; let c := Expr.axis "c" 2; let d := Expr.axis "d" 1
+    let ins := [Expr.list [a, .br b], Expr.list [.br b, c, d]]
+    let eo := Expr.list [c, a, d]; let eo' := Expr.list [d, c, a]
+    ∀ T, okOpt (denoteDot ins eo) = some T →
+      ∃ T', okOpt (denoteDot ins eo') = some T' ∧
+        ∃ plan, planInstr [shapeOf eo] (.transpose 0 [2, 0, 1]) = .ok plan ∧ runPlan symAlg [T] plan = T' :=
+  fun T h => denote_dot_permute_output _ _ _ [2, 0, 1] T (by decide +kernel) (by decide +kernel) (by decide +kernel)
+    (by decide +kernel) rfl (by decide +kernel) h
 
 end Einx.C08b
